@@ -232,14 +232,23 @@ theorem c15_create_request_sound {now : Int} {rq : TEIn} {c : OPClient} {p : TEP
 /-- the parameter checks both routers make (each has its own copy, in its own order; every one fails with `invalid_request`) -/
 def paramsOK (rq : TEIn) : Prop :=
   rq.SubjectToken ≠ "" ∧ rq.SubjectTokenType ≠ "" ∧ rq.SubjectTokenType ∈ supported ∧
-  (rq.RequestedTokenType = "" ∨ rq.RequestedTokenType ∈ supported) ∧ (rq.ActorTokenType = "" ∨ rq.ActorTokenType ∈ supported)
+  (rq.RequestedTokenType = "" ∨ rq.RequestedTokenType ∈ supported) ∧ (rq.ActorTokenType = "" ∨ rq.ActorTokenType ∈ supported) ∧
+  (rq.ActorToken = "" ∨ rq.ActorTokenType ≠ "")
 instance (rq : TEIn) : Decidable (paramsOK rq) := by unfold paramsOK; infer_instance
 
+/-- the parameter checks together: an actor token, if given, comes with a declared SUPPORTED type -/
+theorem paramsOK_actor {rq : TEIn} (hp : paramsOK rq) : rq.ActorToken = "" ∨ rq.ActorTokenType ∈ supported := by
+  rcases hp.2.2.2.2.2 with h | h
+  · exact .inl h
+  · rcases hp.2.2.2.2.1 with h' | h'
+    · exact absurd h' h
+    · exact .inr h'
+
 /-- hand-readable specification of the Provider router's `ValidateTokenExchangeRequest`: nothing happens without the two required
-    parameters; then the client is authenticated and must be registered for the grant; then the remaining parameter checks; then
+    parameters, nor with an `actor_token` whose `actor_token_type` is missing (RFC 8693 2.1; F-C15c, repaired); then the client is authenticated and must be registered for the grant; then the remaining parameter checks; then
     `CreateTokenExchangeRequest` -/
 def validateSpec (now : Int) (rq : TEIn) (id sec : String) (p : TEProvider) : Go.R (TEReq × OPClient) :=
-  if rq.SubjectToken = "" ∨ rq.SubjectTokenType = "" then .error "ErrInvalidRequest"
+  if rq.SubjectToken = "" ∨ rq.SubjectTokenType = "" ∨ (rq.ActorToken ≠ "" ∧ rq.ActorTokenType = "") then .error "ErrInvalidRequest"
   else match Hand.teAuthorizeClient now id sec p with
     | .error e => .error e
     | .ok c =>
@@ -262,19 +271,20 @@ theorem validateTokenExchangeRequest_eq (now : Int) (rq : TEIn) (id sec : String
     resolution" is `VerifyIDTokenHint`, and that verifier also accepts the provider's own JWT ACCESS tokens - so "resolved as an
     id_token" does not establish "is an ID token" (nor, therefore, that a revoked access token is refused). For the declared types
     access_token / refresh_token / jwt and for third-party tokens the statement is the full one.
-    Second exclusion (finding F-C15c, witness `c15_actor_without_type_witness`): the conclusion can only say
-    `ActorTokenType = "" ∨ supported` - NOT `ActorToken = "" ∨ supported`: an actor token without a declared type is not refused
-    by the framework itself but handed to the optional verifier storage with the empty type. -/
+    The former second exclusion (finding F-C15c) is gone with the repair: the conclusion now says `ActorToken = "" ∨ ActorTokenType ∈
+    supported` - an actor token, if given, is of a declared SUPPORTED type (an actor token without a declared type is refused by
+    the framework itself, `c15_actor_without_type_refused`). -/
 theorem c15_validate_sound_partial {now : Int} {rq : TEIn} {id sec : String} {p : TEProvider} {r : TEReq} {c : OPClient}
     (h : GenTE.ValidateTokenExchangeRequest now rq id sec p = .ok (r, c)) :
     p.base.store.AuthorizeClientIDSecret id sec = .ok () ∧ p.base.store.GetClientByClientID id = .ok c ∧
     Const.GrantTypeTokenExchange ∈ c.grants ∧
-    rq.SubjectToken ≠ "" ∧ rq.SubjectTokenType ∈ supported ∧ (rq.ActorTokenType = "" ∨ rq.ActorTokenType ∈ supported) ∧
+    rq.SubjectToken ≠ "" ∧ rq.SubjectTokenType ∈ supported ∧ (rq.ActorToken = "" ∨ rq.ActorTokenType ∈ supported) ∧
+    (rq.ActorTokenType = "" ∨ rq.ActorTokenType ∈ supported) ∧
     (rq.RequestedTokenType = "" ∨ rq.RequestedTokenType ∈ supported) ∧
     GenTE.CreateTokenExchangeRequest now rq c p = .ok r := by
   rw [validateTokenExchangeRequest_eq] at h
   unfold validateSpec Hand.teAuthorizeClient at h
-  by_cases h1 : rq.SubjectToken = "" ∨ rq.SubjectTokenType = ""
+  by_cases h1 : rq.SubjectToken = "" ∨ rq.SubjectTokenType = "" ∨ (rq.ActorToken ≠ "" ∧ rq.ActorTokenType = "")
   · simp [h1] at h
   simp only [h1, if_false] at h
   cases hc : AuthorizeTokenExchangeClient now id sec p.base with
@@ -291,7 +301,7 @@ theorem c15_validate_sound_partial {now : Int} {rq : TEIn} {id sec : String} {p 
         simp [hr] at h
         obtain ⟨rfl, rfl⟩ := h
         obtain ⟨a1, a2⟩ := C05.authorizeTokenExchangeClient_ok hc
-        exact ⟨a1, a2, C04.validateGrantType_iff.1 (by simpa using h3), hp.1, hp.2.2.1, hp.2.2.2.2, hp.2.2.2.1, hr⟩
+        exact ⟨a1, a2, C04.validateGrantType_iff.1 (by simpa using h3), hp.1, hp.2.2.1, paramsOK_actor hp, hp.2.2.2.2.1, hp.2.2.2.1, hr⟩
     · simp [h3, hp] at h
 
 /-! ## the refresh decision and the response -/
@@ -687,10 +697,13 @@ theorem c15_routers_agree (now : Int) (rq : TEIn) (id sec : String) (c : OPClien
   unfold handlerSpec validateSpec
   simp only [hauth, hgrant]
   by_cases hp : paramsOK rq
-  · have h1 : ¬ (rq.SubjectToken = "" ∨ rq.SubjectTokenType = "") := by
-      intro h; rcases h with h | h
+  · have h1 : ¬ (rq.SubjectToken = "" ∨ rq.SubjectTokenType = "" ∨ (rq.ActorToken ≠ "" ∧ rq.ActorTokenType = "")) := by
+      intro h; rcases h with h | h | h
       · exact hp.1 h
       · exact hp.2.1 h
+      · rcases hp.2.2.2.2.2 with h' | h'
+        · exact h.1 h'
+        · exact h' h.2
     simp only [hp, h1, not_true_eq_false, if_false, Bool.true_eq_false]
     by_cases hs : p.Storage.is_TokenExchangeStorage = true
     · simp only [hs, Bool.true_eq_false, if_false]
@@ -699,13 +712,14 @@ theorem c15_routers_agree (now : Int) (rq : TEIn) (id sec : String) (c : OPClien
       have : GenTE.CreateTokenExchangeRequest now rq c p = .error (Hand.unimplementedGrantError Const.GrantTypeTokenExchange) := by
         unfold GenTE.CreateTokenExchangeRequest; simp [hs']
       simp [hs', this]
-  · by_cases h1 : rq.SubjectToken = "" ∨ rq.SubjectTokenType = "" <;> simp [hp, h1]
+  · by_cases h1 : rq.SubjectToken = "" ∨ rq.SubjectTokenType = "" ∨ (rq.ActorToken ≠ "" ∧ rq.ActorTokenType = "") <;> simp [hp, h1]
 
 /-- what a success of the Server router's handler establishes (the client was authenticated by `withClient`, the C05 slice):
     supported declared types, and the same `CreateTokenExchangeRequest` / `CreateTokenExchangeResponse` as on the Provider router -/
 theorem c15_legacy_handler_sound {now : Int} {ws : TEWebServer} {rq : TEIn} {c : OPClient} {resp : ExchangeResp}
     (h : GenTE.tokenExchangeHandler now ws { form := .ok rq } c = .ok resp) :
-    rq.SubjectToken ≠ "" ∧ rq.SubjectTokenType ∈ supported ∧ (rq.ActorTokenType = "" ∨ rq.ActorTokenType ∈ supported) ∧
+    rq.SubjectToken ≠ "" ∧ rq.SubjectTokenType ∈ supported ∧ (rq.ActorToken = "" ∨ rq.ActorTokenType ∈ supported) ∧
+    (rq.ActorTokenType = "" ∨ rq.ActorTokenType ∈ supported) ∧
     (rq.RequestedTokenType = "" ∨ rq.RequestedTokenType ∈ supported) ∧
     ∃ r, GenTE.CreateTokenExchangeRequest now rq c ws.server.provider = .ok r ∧ GenTE.CreateTokenExchangeResponse now r c ws.server.provider = .ok resp := by
   rw [tokenExchangeHandler_eq] at h
@@ -724,7 +738,7 @@ theorem c15_legacy_handler_sound {now : Int} {ws : TEWebServer} {rq : TEIn} {c :
       | ok resp' =>
         simp [hx] at h
         subst h
-        exact ⟨hp.1, hp.2.2.1, hp.2.2.2.2, hp.2.2.2.1, r, rfl, hx⟩
+        exact ⟨hp.1, hp.2.2.1, paramsOK_actor hp, hp.2.2.2.2.1, hp.2.2.2.1, r, rfl, hx⟩
   · simp [hp] at h
 
 /-! ## finding F-C15b: a JWT access token declared as id_token (type confusion) -/
@@ -784,15 +798,47 @@ example : GenTE.GetTokenIDAndSubjectFromToken 0 exProvider "tp-a" Const.JWTToken
 -- the same token in both roles resolves to the identity of THAT role
 example : GenTE.GetTokenIDAndSubjectFromToken 0 exProvider "tp-b" Const.JWTTokenType false = ("tp-b", "bob-as-subject", [], true) := by decide
 example : GenTE.GetTokenIDAndSubjectFromToken 0 exProvider "tp-b" Const.JWTTokenType true = ("tp-b", "bob-as-actor", [], true) := by decide
-/-- WITNESS for F-C15c (the full-strength reading "an actor token, if given, is of a declared SUPPORTED type" is false of the unchanged
-    code): `actor_token=tp-a` WITHOUT `actor_token_type` - the regenerated chain lets the request through as a delegation for the
-    actor the verifier storage's actor policy named (it was asked with the empty type), and the monitor refuses that success;
-    without the optional verifier storage the same request is refused -/
-theorem c15_actor_without_type_witness :
+/-- F-C15c REPAIRED (RFC 8693 2.1: `actor_token_type` is REQUIRED when `actor_token` is present): the Provider router's regenerated
+    `ValidateTokenExchangeRequest` refuses an `actor_token` WITHOUT `actor_token_type` with invalid_request - for EVERY request,
+    client credential, provider, storage (with or without the optional verifier storage) and library answer; nothing is resolved and
+    nobody is asked with the empty type. Reverting the repair makes the witness the finding recorded true again and this false. -/
+theorem c15_actor_without_type_refused (now : Int) (rq : TEIn) (id sec : String) (p : TEProvider)
+    (ha : rq.ActorToken ≠ "") (ht : rq.ActorTokenType = "") :
+    GenTE.ValidateTokenExchangeRequest now rq id sec p = .error "ErrInvalidRequest" := by
+  rw [validateTokenExchangeRequest_eq]
+  unfold validateSpec
+  simp [ha, ht]
+
+/-- ... and so does the Server router's regenerated `webServer.tokenExchangeHandler`, whoever the authenticated client is -/
+theorem c15_actor_without_type_refused_legacy (now : Int) (ws : TEWebServer) (rq : TEIn) (c : OPClient)
+    (ha : rq.ActorToken ≠ "") (ht : rq.ActorTokenType = "") :
+    GenTE.tokenExchangeHandler now ws { form := .ok rq } c = .error "ErrInvalidRequest" := by
+  rw [tokenExchangeHandler_eq]
+  unfold handlerSpec
+  have hp : ¬ paramsOK rq := by
+    intro hp
+    rcases hp.2.2.2.2.2 with h | h
+    · exact ha h
+    · exact h ht
+  simp [hp]
+
+/-- the input of the former witness of F-C15c: `actor_token=tp-a` WITHOUT `actor_token_type` against the verifier storage whose actor
+    policy accepts "tp-a" under any type - refused now on both routers (and, as before, without the optional verifier storage), so the
+    monitor has no success to judge; the monitor itself is unchanged and still refuses such a success (`actor-token-not-live`) -/
+theorem c15_actor_without_type_example :
     (match GenTE.ValidateTokenExchangeRequest 0 { SubjectToken := "tp-s", SubjectTokenType := Const.JWTTokenType, ActorToken := "tp-a", ActorTokenType := "", RequestedTokenType := Const.AccessTokenType } "te-only" "s" exProvider with
-      | .ok (r, _) => r.exchangeActor == "svc" && r.exchangeActorTokenType == "" | .error _ => false) = true ∧
+      | .ok _ => false | .error e => e == "ErrInvalidRequest") = true ∧
+    (match GenTE.tokenExchangeHandler 0 { server := { provider := exProvider } } { form := .ok { SubjectToken := "tp-s", SubjectTokenType := Const.JWTTokenType, ActorToken := "tp-a", ActorTokenType := "", RequestedTokenType := Const.AccessTokenType } }
+        { id := "te-only", secret := "s", grants := [Const.GrantTypeTokenExchange] } with
+      | .ok _ => false | .error e => e == "ErrInvalidRequest") = true ∧
     (match GenTE.ValidateTokenExchangeRequest 0 { SubjectToken := "tp-s", SubjectTokenType := Const.JWTTokenType, ActorToken := "tp-a", ActorTokenType := "", RequestedTokenType := Const.AccessTokenType } "te-only" "s" { exProvider with Storage := { exStore with is_TokenExchangeTokensVerifierStorage := false } } with
       | .ok _ => false | .error e => e == "ErrInvalidRequest") = true ∧
+    -- the same request WITH the type declared still goes through as a delegation for the actor the actor policy named
+    (match GenTE.ValidateTokenExchangeRequest 0 { SubjectToken := "tp-s", SubjectTokenType := Const.JWTTokenType, ActorToken := "tp-a", ActorTokenType := Const.JWTTokenType, RequestedTokenType := Const.AccessTokenType } "te-only" "s" exProvider with
+      | .ok (r, _) => r.exchangeActor == "svc" && r.exchangeActorTokenType == Const.JWTTokenType | .error _ => false) = true ∧
+    judge { base := { issuer := "https://op.example", clients := exProvider.base.store.clients }, capTE := true } 0 { clientID := "te-only", secret := "s" }
+      { subjectType := Const.JWTTokenType, subjectLive := true, subjectSubject := "alice", actorGiven := true, actorType := "", actorLive := true, actorSubject := "svc", requestedType := tAccess }
+      none = none ∧
     judge { base := { issuer := "https://op.example", clients := exProvider.base.store.clients }, capTE := true } 0 { clientID := "te-only", secret := "s" }
       { subjectType := Const.JWTTokenType, subjectLive := true, subjectSubject := "alice", actorGiven := true, actorType := "", actorLive := true, actorSubject := "svc", requestedType := tAccess }
       (some { issuedTokenType := tAccess, accessToken := "access", accessLive := true, subject := "alice", policyAsked := true, exchangeSubject := "alice", actor := "svc" })
